@@ -55,6 +55,11 @@ def items(tier):
     for ch in E.chunks(deg + specs, 12):
         its.append({"key": f"{ch[0][0]}..{ch[-1][0]}", "kind": "models", "specs": [[k, s] for k, s in ch],
                     "sample": {"family": "E3", "first_key": ch[0][0], "first_text": models.spec_text(ch[0][1]), "n": len(ch)}})
+    # missing_values (sub-models obtained by splitting at a component): JAX sub-modules vs NumPy sub-modules vs the full model
+    from checks import c13
+    for ch in E.chunks(c13.rich_family(), 4):
+        its.append({"key": f"split|{ch[0][0]}..{ch[-1][0]}", "kind": "split", "specs": [[k, s] for k, s in ch], "tier": "quick",
+                    "sample": {"family": "component splits (missing_values)", "first_key": ch[0][0]}})
     return its
 
 
@@ -105,6 +110,14 @@ def run_item(item):
     drive.gx()
     _jax_env()
     res = c01.new_res()
+    if item["kind"] == "split":
+        from checks import c13
+        saved = c13.ID
+        c13.ID = ID
+        try:
+            return c13.run_item(item)
+        finally:
+            c13.ID = saved
     if item["kind"] == "pack":
         exprs = [L.from_json(e) for e in item["exprs"]]
         saved = c01.ID
